@@ -7,6 +7,8 @@ import jax.numpy as jnp
 from jaxtyping import Array, Float, Int
 from loguru import logger
 
+from mdpax.utils import _verif
+
 
 class BatchProcessor:
     """Handles batching and padding of state spaces for parallel processing.
@@ -90,6 +92,16 @@ class BatchProcessor:
         logger.debug(f"Batch size: {self.batch_size}")
         logger.debug(f"Number of batches per device: {self.n_batches}")
         logger.debug(f"Padding elements: {self.n_pad}")
+        if _verif.ENABLED:
+            _verif.emit(
+                "batching",
+                n_states=int(n_states),
+                max_batch_size=int(max_batch_size),
+                n_devices=int(self.n_devices),
+                n_batches=int(self.n_batches),
+                batch_size=int(self.batch_size),
+                n_pad=int(self.n_pad),
+            )
 
     def prepare_batches(
         self, states: Float[Array, "n_states state_dim"]
